@@ -130,14 +130,18 @@ CHECKS = {
                    "blocks acknowledging their own branch; after an adoption every pooled block must acknowledge a "
                    "momentum of the adopted chain. The window edge (fork depth 30 / 31) is generated exactly. After a faulted "
                    "fork delivery that the node answered by staying, the SAME node is handed the chain again with a bad signature "
-                   "on an element that had verified and been rolled back in the first delivery.",
+                   "on an element that had verified and been rolled back in the first delivery. TestC16Interleaved owns a two-goroutine "
+                   "schedule: the delivery of a fork (shorter / equal / longer, optionally faulted) is started while the harness holds "
+                   "the chain's insert lock, the harness waits until the delivery is parked at that lock, inserts the follower's "
+                   "next own momentum under it and releases: the decision must be the one for the chain the node has when it leaves it.",
         technique="fault injection enumerated over positions x kinds on generated batches (rapid), reference decision from the statement",
         rule="case = world + local chain + batch variants; evaluation unit = one faulted delivery; distinct non-trivial = distinct "
              "(variant, fault kind, position relative to first unknown element, batch length, fork depth) tuples plus distinct cases",
         exhaustive_note="per delivered batch: positions x fault kinds as described; not exhaustive over batches",
         assumptions=HIST_ASSUME,
         eval_counter="fault_deliveries",
-        jobs=[dict(test="TestC16", quick=T(8, 12), thorough=T(16, 40, 0, 3000))],
+        jobs=[dict(test="TestC16", quick=T(8, 12), thorough=T(16, 40, 0, 3000)),
+              dict(test="TestC16Interleaved", quick=T(2, 30), thorough=T(4, 400, 0, 3000))],
     ),
     "C12": dict(
         level="exploration",
